@@ -3,6 +3,7 @@ INVARIANT UntamperedAccepted
 INVARIANT PadDontCare
 INVARIANT TamperRejected
 INVARIANT MutantRejected
+INVARIANT ParseMutantRejected
 INVARIANT DocumentedLayoutOK
 INVARIANT KeyDiscipline
 INVARIANT RegionsCovered
